@@ -9,7 +9,8 @@ Local Open Scope res_scope.
 
 (* ------------------------------------------------------------------ the prescribed tables *)
 
-Definition expected_tables : tables := {|
+(* configuration / dispatch part: prescribed by the property; graph part: a parameter *)
+Definition with_graph (gs : list site) (gc : list callrec) (ge : list emitrec) (gr : list raiserec) : tables := {|
   t_backends := [("sugar", "sugar_like.SugarBackend"); ("sugar_extended", "sugar_like.SugarExtendedBackend");
                  ("z3", "z3.Z3Backend"); ("csugar", "sugar_like.CSugarBackend");
                  ("enigma_csp", "sugar_like.EnigmaCSPBackend"); ("cspuz_core", "sugar_like.CspuzCoreBackend")];
@@ -33,32 +34,42 @@ Definition expected_tables : tables := {|
                 ("sugar_like.CSugarBackend", EntryModule "pycsugar");
                 ("sugar_like.EnigmaCSPBackend", EntryModule "enigma_csp");
                 ("sugar_like.CspuzCoreBackend", EntryModule "cspuz_core")];
-  t_sites := [mk_site "_active_vertices_connected" FlagPrim true;
+  t_sites := gs;
+  t_calls := gc;
+  t_emits := ge;
+  t_raises := gr
+|}.
+
+(* the decision structure of graph.py as it is today (used for the fallback of the translator;
+   the graph theorems are proved about the generated tables themselves, by computation) *)
+Definition expected_sites : list site := [mk_site "_active_vertices_connected" FlagPrim true;
               mk_site "_division_connected" FlagPrim false;
               mk_site "_division_connected_variable_groups_with_borders" FlagDiv false;
               mk_site "_active_edges_single_cycle" FlagPrim false;
-              mk_site "_active_edges_single_path" FlagPrim false];
-  t_calls := [mk_call "active_vertices_connected" BrTop VAny "_active_vertices_connected" ArgPass AcyPass true;
-              mk_call "active_vertices_not_adjacent_and_not_segmenting" BrTop VExplicit "active_vertices_connected" ArgOmitted (AcyConst false) true;
-              mk_call "_division_connected" BrPrim VAny "_active_vertices_connected" (ArgConst true) (AcyConst false) true;
-              mk_call "division_connected" BrTop VInferred "_division_connected" ArgOmitted (AcyConst false) true;
-              mk_call "division_connected" BrTop VExplicit "_division_connected" ArgOmitted (AcyConst false) true;
-              mk_call "division_connected_variable_groups_with_borders" BrTop VInferred "_division_connected_variable_groups_with_borders" ArgPass (AcyConst false) true;
-              mk_call "division_connected_variable_groups_with_borders" BrTop VExplicit "_division_connected_variable_groups_with_borders" ArgPass (AcyConst false) true;
-              mk_call "_active_edges_single_cycle" BrPrim VAny "_active_vertices_connected" (ArgConst true) (AcyConst false) true;
-              mk_call "active_edges_single_cycle" BrTop VInferred "_active_edges_single_cycle" ArgPass (AcyConst false) true;
-              mk_call "active_edges_single_cycle" BrTop VExplicit "_active_edges_single_cycle" ArgPass (AcyConst false) true;
-              mk_call "_active_edges_single_path" BrPrim VAny "_active_vertices_connected" (ArgConst true) (AcyConst false) true;
-              mk_call "active_edges_single_path" BrTop VInferred "_active_edges_single_path" ArgPass (AcyConst false) true;
-              mk_call "active_edges_single_path" BrTop VExplicit "_active_edges_single_path" ArgPass (AcyConst false) true;
-              mk_call "active_edges_connected_crossable" BrTop VAny "active_vertices_connected" ArgPass (AcyConst false) true;
-              mk_call "active_edges_single_cycle_crossable" BrTop VAny "active_edges_connected_crossable" ArgPass (AcyConst false) false];
-  t_emits := [mk_emit "_active_vertices_connected" BrPrim OpAVC;
-              mk_emit "_division_connected_variable_groups_with_borders" BrPrim OpDIV];
-  t_raises := [mk_raise "_active_edges_single_path" BrElse "RuntimeError"]
-|}.
+              mk_site "_active_edges_single_path" FlagPrim false].
+Definition expected_calls : list callrec := [mk_call "active_vertices_connected" BrTop VAny "_active_vertices_connected" ArgPass AcyPass true false;
+              mk_call "active_vertices_not_adjacent_and_not_segmenting" BrTop VInferred "active_vertices_connected" ArgOmitted (AcyConst false) false true;
+              mk_call "active_vertices_not_adjacent_and_not_segmenting" BrTop VExplicit "active_vertices_connected" ArgOmitted (AcyConst false) true false;
+              mk_call "_division_connected" BrPrim VAny "_active_vertices_connected" (ArgConst true) (AcyConst false) true false;
+              mk_call "division_connected" BrTop VInferred "_division_connected" ArgOmitted (AcyConst false) true false;
+              mk_call "division_connected" BrTop VExplicit "_division_connected" ArgOmitted (AcyConst false) true false;
+              mk_call "division_connected_variable_groups_with_borders" BrTop VInferred "_division_connected_variable_groups_with_borders" ArgPass (AcyConst false) true false;
+              mk_call "division_connected_variable_groups_with_borders" BrTop VExplicit "_division_connected_variable_groups_with_borders" ArgPass (AcyConst false) true false;
+              mk_call "_active_edges_single_cycle" BrPrim VAny "_active_vertices_connected" (ArgConst true) (AcyConst false) true false;
+              mk_call "active_edges_single_cycle" BrTop VInferred "_active_edges_single_cycle" ArgPass (AcyConst false) true false;
+              mk_call "active_edges_single_cycle" BrTop VExplicit "_active_edges_single_cycle" ArgPass (AcyConst false) true false;
+              mk_call "_active_edges_single_path" BrPrim VAny "_active_vertices_connected" (ArgConst true) (AcyConst false) true false;
+              mk_call "active_edges_single_path" BrTop VInferred "_active_edges_single_path" ArgPass (AcyConst false) true false;
+              mk_call "active_edges_single_path" BrTop VExplicit "_active_edges_single_path" ArgPass (AcyConst false) true false;
+              mk_call "active_edges_connected_crossable" BrTop VAny "active_vertices_connected" ArgPass (AcyConst false) true false;
+              mk_call "active_edges_single_cycle_crossable" BrTop VAny "active_edges_connected_crossable" ArgPass (AcyConst false) false false].
+Definition expected_emits : list emitrec := [mk_emit "_active_vertices_connected" BrPrim OpAVC;
+              mk_emit "_division_connected_variable_groups_with_borders" BrPrim OpDIV].
+Definition expected_raises : list raiserec := [mk_raise "_active_edges_single_path" BrElse "RuntimeError"].
 
-Notation E := expected_tables.
+Definition expected_tables : tables :=
+  with_graph expected_sites expected_calls expected_emits expected_raises.
+
 
 (* ------------------------------------------------------------------ specification vocabulary *)
 
@@ -114,8 +125,6 @@ Definition sugar_argv0 (cfg : config) : string :=
   end.
 
 (* ------------------------------------------------------------------ statements *)
-
-Definition tables_wellformed_stmt (T : tables) : Prop := T = expected_tables.
 
 Definition detect_order_stmt (T : tables) : Prop :=
   forall avail, detect_backend T avail = auto_order avail.
@@ -209,36 +218,40 @@ Definition auto_detected_importable_stmt (T : tables) : Prop :=
 
 (* graph helpers: the native operators a call posts *)
 Definition primitive_decision_stmt (T : tables) : Prop :=
-  forall cfg arg acyclic explicit,
+  forall cfg arg acyclic explicit dd,
     let p := use_graph_primitive cfg in
     let d := use_graph_division_primitive cfg in
-    emits T "active_vertices_connected" cfg arg acyclic explicit
+    emits T "active_vertices_connected" cfg arg acyclic explicit dd
       = Ok (if want arg p && negb acyclic then [OpAVC] else []) /\
-    emits T "active_edges_single_cycle" cfg arg acyclic explicit
+    emits T "active_edges_single_cycle" cfg arg acyclic explicit dd
       = Ok (if want arg p then [OpAVC] else []) /\
-    emits T "active_edges_single_path" cfg arg acyclic explicit
+    emits T "active_edges_single_path" cfg arg acyclic explicit dd
       = (if want arg p then Ok [OpAVC] else Err OtherError) /\
-    emits T "active_edges_connected_crossable" cfg arg acyclic explicit
+    emits T "active_edges_connected_crossable" cfg arg acyclic explicit dd
       = Ok (if want arg p then [OpAVC] else []) /\
-    emits T "active_edges_single_cycle_crossable" cfg arg acyclic explicit
+    emits T "active_edges_single_cycle_crossable" cfg arg acyclic explicit dd
       = Ok (if want arg p then [OpAVC] else []) /\
-    emits T "division_connected_variable_groups_with_borders" cfg arg acyclic explicit
+    emits T "division_connected_variable_groups_with_borders" cfg arg acyclic explicit dd
       = Ok (if want arg d then [OpDIV] else []) /\
     (* helpers without a use_graph_primitive parameter: the configuration alone decides *)
-    emits T "division_connected" cfg None acyclic explicit
+    emits T "division_connected" cfg None acyclic explicit dd
       = Ok (if p then [OpAVC] else []) /\
-    emits T "active_vertices_not_adjacent_and_not_segmenting" cfg None acyclic true
+    emits T "active_vertices_not_adjacent_and_not_segmenting" cfg None acyclic true dd
       = Ok (if p then [OpAVC] else []) /\
     (* no decision and no native operator at all *)
-    emits T "active_vertices_not_adjacent_and_not_segmenting" cfg None acyclic false = Ok [] /\
-    emits T "division_connected_variable_groups" cfg arg acyclic explicit = Ok [] /\
-    emits T "active_edges_acyclic" cfg arg acyclic explicit = Ok [] /\
-    emits T "active_vertices_not_adjacent" cfg arg acyclic explicit = Ok [].
+    (* on a 2-D array: single-row / single-column boards go through active_vertices_connected,
+       larger boards use the diagonal-chain encoding, which has no decision (documented TODO) *)
+    emits T "active_vertices_not_adjacent_and_not_segmenting" cfg None acyclic false true
+      = Ok (if p then [OpAVC] else []) /\
+    emits T "active_vertices_not_adjacent_and_not_segmenting" cfg None acyclic false false = Ok [] /\
+    emits T "division_connected_variable_groups" cfg arg acyclic explicit dd = Ok [] /\
+    emits T "active_edges_acyclic" cfg arg acyclic explicit dd = Ok [] /\
+    emits T "active_vertices_not_adjacent" cfg arg acyclic explicit dd = Ok [].
 
 Definition acyclic_never_primitive_stmt (T : tables) : Prop :=
-  forall cfg arg explicit,
-    emits T "active_vertices_connected" cfg arg true explicit = Ok [] /\
-    emits T "_active_vertices_connected" cfg arg true explicit = Ok [] /\
+  forall cfg arg explicit dd,
+    emits T "active_vertices_connected" cfg arg true explicit dd = Ok [] /\
+    emits T "_active_vertices_connected" cfg arg true explicit dd = Ok [] /\
     resolve_primitive T "_active_vertices_connected" cfg arg true = Some false /\
     (* and acyclic=True is never manufactured by another helper *)
     (forall c, In c (t_calls T) -> c_acy c = AcyPass \/ c_acy c = AcyConst false).
@@ -259,6 +272,10 @@ Definition site_decisions_stmt (T : tables) : Prop :=
       = [("_active_vertices_connected", OpAVC); ("_division_connected_variable_groups_with_borders", OpDIV)].
 
 (* ------------------------------------------------------------------ proofs: strings *)
+
+Section ConfigPart.
+Variables (gs : list site) (gc : list callrec) (ge : list emitrec) (gr : list raiserec).
+Notation E := (with_graph gs gc ge gr).
 
 Definition needed_chars : list ascii :=
   ["t"; "r"; "u"; "e"; "f"; "a"; "l"; "s"; "1"; "0"]%char.
@@ -353,9 +370,6 @@ Proof.
 Qed.
 
 (* ------------------------------------------------------------------ proofs: configuration *)
-
-Lemma tables_wellformed_E : tables_wellformed_stmt E.
-Proof. reflexivity. Qed.
 
 Lemma detect_order_E : detect_order_stmt E.
 Proof. intros avail. reflexivity. Qed.
@@ -511,28 +525,7 @@ Proof.
   right. repeat split.
 Qed.
 
-(* ------------------------------------------------------------------ proofs: graph helpers *)
-
-Lemma primitive_decision_E : primitive_decision_stmt E.
-Proof.
-  intros [db bp p d] arg acyclic explicit. cbv zeta. simpl use_graph_primitive; simpl use_graph_division_primitive.
-  destruct p, d, arg as [[|]|], acyclic, explicit; vm_compute; repeat split.
-Qed.
-
-Lemma acyclic_never_primitive_E : acyclic_never_primitive_stmt E.
-Proof.
-  intros [db bp p d] arg explicit. repeat split.
-  - destruct p, arg as [[|]|], explicit; reflexivity.
-  - destruct p, arg as [[|]|], explicit; reflexivity.
-  - destruct p, arg as [[|]|]; reflexivity.
-  - intros c Hc. simpl in Hc.
-    repeat (destruct Hc as [<-|Hc]; [simpl; auto|]). destruct Hc.
-Qed.
-
-Lemma site_decisions_E : site_decisions_stmt E.
-Proof.
-  intros [db bp p d] arg acyclic. repeat split; destruct arg as [[|]|], acyclic, p, d; reflexivity.
-Qed.
+End ConfigPart.
 
 (* ------------------------------------------------------------------ sanity examples *)
 
